@@ -81,6 +81,9 @@ func c07Genesis(dir string) (*store.ChainDatabase, common.Hash) {
 	a1.SetEquityState(hashN(1), &types.AssetEquity{AssetCode: hashN(1), AssetId: hashN(1), Equity: big.NewInt(5)})
 	a2 := am.GetAccount(c07Addrs[2])
 	a2.SetBalance(big.NewInt(50))
+	// a committed signer list: the slice is shared by every copy of the account data (AccountData.Copy is shallow here),
+	// which is only sound while every writer replaces the list as a whole
+	a2.SetSingers(types.Signers{{Address: common.BigToAddress(big.NewInt(1)), Weight: 60}, {Address: common.BigToAddress(big.NewInt(2)), Weight: 50}})
 	g := &chain.Genesis{Time: 1538209751, ExtraData: "c07", GasLimit: params.GenesisGasLimit, Founder: common.HexToAddress("0x7fff"), DeputyNodesInfo: chain.DefaultDeputyNodesInfo[:1]}
 	block, err := g.ToBlock(am)
 	if err != nil {
@@ -262,6 +265,13 @@ func c07(c *Ctx) {
 		ini("votes %s", a.GetVotes().String())
 		vf := a.GetVoteFor()
 		ini("votefor %s", new(big.Int).SetBytes(vf[:]).String())
+		if ss := a.GetSigners(); len(ss) > 0 {
+			parts := []string{"-"}
+			for _, sg := range ss {
+				parts = append(parts, fmt.Sprintf("%s:%d", new(big.Int).SetBytes(sg.Address[:]).String(), sg.Weight))
+			}
+			ini("signers %s", strings.Join(parts, " "))
+		}
 		for k := 1; k <= 3; k++ {
 			if v := a.GetCandidateState(fmt.Sprintf("k%d", k)); v != "" {
 				ini("profile %d %d", k, strVal(v))
